@@ -85,40 +85,40 @@ Definition oct_len (s : list N) : nat :=      (* s starts at the first octal dig
 Definition oct_value (s : list N) (k : nat) : N :=
   fold_left (fun acc d => acc * 8 + (d - 48)) (firstn k s) 0.
 
-Fixpoint pyeval (s : list N) (skip : nat) : outcome (list N * bool) unit :=
+Fixpoint bytes_eval (s : list N) (skip : nat) : outcome (list N * bool) unit :=
   match s with
   | [] => Ok ([], false)
   | c :: r =>
     match skip with
-    | S k => pyeval r k
+    | S k => bytes_eval r k
     | O =>
       if N.eqb c BSL then
         match r with
         | [] => Crash CValueError                       (* unterminated literal *)
         | e :: _ =>
-          if N.eqb e 39 then (do x <- pyeval r 1; Ok (39 :: fst x, snd x))
-          else if N.eqb e 10 then pyeval r 1            (* backslash-newline: continuation *)
+          if N.eqb e 39 then (do x <- bytes_eval r 1; Ok (39 :: fst x, snd x))
+          else if N.eqb e 10 then bytes_eval r 1            (* backslash-newline: continuation *)
           else match simple_escape e with
-          | Some b => do x <- pyeval r 1; Ok (b :: fst x, snd x)
+          | Some b => do x <- bytes_eval r 1; Ok (b :: fst x, snd x)
           | None =>
             if is_oct e then
               let k := oct_len r in
               let v := oct_value r k in
-              do x <- pyeval r k; Ok (v mod 256 :: fst x, (255 <? v) || snd x)
+              do x <- bytes_eval r k; Ok (v mod 256 :: fst x, (255 <? v) || snd x)
             else if N.eqb e LX then
               if nth_is is_hex r 1 && nth_is is_hex r 2
-              then do x <- pyeval r 3; Ok (hexval (nth 1 r 0) * 16 + hexval (nth 2 r 0) :: fst x, snd x)
+              then do x <- bytes_eval r 3; Ok (hexval (nth 1 r 0) * 16 + hexval (nth 2 r 0) :: fst x, snd x)
               else Crash CValueError                    (* invalid \x escape *)
             else (* unknown escape: the backslash stays, a warning is emitted *)
-              do x <- pyeval r 0; Ok (BSL :: fst x, true)
+              do x <- bytes_eval r 0; Ok (BSL :: fst x, true)
           end
         end
       else if N.eqb c 39 || N.eqb c 10 || N.eqb c 13 || (128 <=? c) then Crash CValueError
-      else do x <- pyeval r 0; Ok (c :: fst x, snd x)
+      else do x <- bytes_eval r 0; Ok (c :: fst x, snd x)
     end
   end.
 
-Inductive unesc_err := EDecode.    (* UnicodeDecodeError from result.decode(encoding) *)
+Inductive unesc_err : Set := EDecode.    (* UnicodeDecodeError from result.decode(encoding) *)
 
 (* result.decode('ASCII'), else result.decode(encoding) *)
 Definition decode_run (dec : list N -> option (list N)) (b : list N) : outcome (list N) unesc_err :=
@@ -130,18 +130,18 @@ Definition lift_crash {A} (x : outcome A unit) : outcome A unesc_err :=
 
 (* the callback [unescape(match)] *)
 Definition unescape_run (dec : list N -> option (list N)) (run : list N) : outcome (list N * bool) unesc_err :=
-  do x <- lift_crash (pyeval (fixup run 0) 0);
+  do x <- lift_crash (bytes_eval (fixup run 0) 0);
   do t <- decode_run dec (fst x);
   Ok (t, snd x).
 
-Definition flush (dec : list N -> option (list N)) (run : list N) : outcome (list N * bool) unesc_err :=
+Definition flush_run (dec : list N -> option (list N)) (run : list N) : outcome (list N * bool) unesc_err :=
   match run with [] => Ok ([], false) | _ => unescape_run dec run end.
 
 (* _escapes_re.sub(unescape, s): [run] is the escape run being collected *)
 Fixpoint unescape_go (dec : list N -> option (list N)) (s : list N) (skip : nat) (run : list N)
   : outcome (list N * bool) unesc_err :=
   match s with
-  | [] => flush dec run
+  | [] => flush_run dec run
   | c :: r =>
     match skip with
     | S k => unescape_go dec r k run
@@ -149,7 +149,7 @@ Fixpoint unescape_go (dec : list N -> option (list N)) (s : list N) (skip : nat)
       match escape_len s with
       | Some L => unescape_go dec r (pred L) (run ++ firstn L s)
       | None =>
-        do a <- flush dec run;
+        do a <- flush_run dec run;
         do b <- unescape_go dec r 0 [];
         Ok (fst a ++ c :: fst b, snd a || snd b)
       end
